@@ -164,3 +164,23 @@ def make_step(mk, M=1, kind='full', sweeper=('pySDC/implementations/sweeper_clas
             if hasattr(L.sweep, 'QE'):
                 L.sweep.QE = mk.matrix(f'{n}.QE', Ml + 1, Ml + 1, strictly_lower0)
     return S
+
+
+def plant_earlier_end_value(st, L, value):
+    """history for compute_end_point contracts: an end value of an earlier call is still stored on the level and somebody (a logging hook, the
+    caller of run) holds on to that object"""
+    L.uend = value
+    st.uend_before, st.uend_before_copy = value, cp(value)
+    return st
+
+
+def earlier_end_value_clause(st, L):
+    from vc.contract import veq
+    from vc.sym import And
+
+    a, b = st.uend_before, st.uend_before_copy
+    if hasattr(a, 'pos') and hasattr(a, 'vel'):
+        same = And(veq(a.pos, b.pos), veq(a.vel, b.vel))
+    else:
+        same = veq(a, b)
+    return 'uend:earlier_end_value_object_neither_reused_nor_modified', (L.uend is not a) and bool(same) is True
